@@ -474,6 +474,7 @@ def reuse_cases(draw, tier):
         c["clsb"] = "sparse_support"
     c["cap"] = None
     c["mix"] = draw(st.sampled_from([0.5, 0.25, 2.0]))
+    c["second"] = draw(st.sampled_from(["updated_system", "updated_system", "zero_rhs_same_A", "zero_rhs_updated_A", "same_system"]))
     return c
 
 
@@ -484,8 +485,15 @@ def check_reuse(case):
     sc = 10.0 ** case["scale_exp"]
     A2 = case["mix"] * A[::-1, ::-1].copy() + 3.0 * sc * ref.qeye(n) * max(1.0, ref.fro(A) / sc)
     b2 = b[::-1].copy() * 0.5 + 0.25 * sc
+    second = case.get("second", "updated_system")
+    if second == "zero_rhs_same_A":
+        A2, b2 = A.copy(), np.zeros_like(b)
+    elif second == "zero_rhs_updated_A":
+        b2 = np.zeros_like(b)
+    elif second == "same_system":
+        A2, b2 = A.copy(), b.copy()
     k1, k2 = ref.cond(A), ref.cond(A2)
-    out.label("prec=" + str(prec))
+    out.label("prec=" + str(prec), "second=" + second)
     if not (np.isfinite(k1) and np.isfinite(k2)) or max(k1, k2) > 1e4:
         out.label("skipped_illconditioned")
         return out
@@ -501,6 +509,14 @@ def check_reuse(case):
         return out
     x, info = F(np.asarray(r[0])), r[1]
     site = f"QGMRES(prec={prec}) after in-place update of A and b"
+    if not b2.any():
+        out.true(site + ":b = 0 gives x = 0 (also on a solver that has solved before)", x.shape == b2.shape and np.all(x == 0.0),
+                 f"max |x| = {float(np.max(np.abs(x))) if x.size and np.all(np.isfinite(x)) else float('nan')}")
+        for key in ("residual", "residual_true"):
+            v = info.get(key)
+            out.true(site + f":b = 0 info[{key}] finite and zero", v is not None and np.isfinite(v) and float(v) == 0.0, f"{v!r}")
+        out.nontrivial = True
+        return out
     if out.true(site + ":x shape", x.shape == b2.shape, f"{x.shape}"):
         rr = common_info_checks(out, site, A2, b2, x, info, tol, k2, prec)
         if rr is not None:
